@@ -23,6 +23,9 @@
 // nextn prints n<number of true results>, peeks prints p<v:ok,…>; a panic ends the bulk op and
 // its kind is appended (the calls made before it stay made).
 //
+// "quiet" (first op of the big scale histories) switches the per-op observation group off for the
+// rest of the history: every op prints only its own result, and the op "obs" prints o/<group>.
+//
 // Lists of more than 200 values are printed as a digest on both sides:
 // #<len>:<FNV-1a-64 over the values>:<first three>~<last three>.
 //
@@ -240,6 +243,7 @@ func execList(ops []string) string {
 		}
 		return call(func() string { return f(cur[i]) })
 	}
+	quiet := false // after the op "quiet": only the op's own result is printed; "obs" prints the group
 	mk := func(f func() *mlink.Cursor[int]) string {
 		return call(func() string { cur = append(cur, f()); return "u" })
 	}
@@ -367,6 +371,11 @@ func execList(ops []string) string {
 			}
 		case f[0] == "peeks" && len(f) == 2:
 			res = peeks(lst, f[1])
+		case op == "quiet":
+			quiet = true
+			return "u"
+		case op == "obs":
+			res = "o"
 		case op == "clear":
 			res = call(func() string { lst.Clear(); return "u" })
 		case f[0] == "peek" && len(f) == 2:
@@ -381,6 +390,9 @@ func execList(ops []string) string {
 			res = call(func() string { return "n" + strconv.Itoa(lst.Len()) })
 		case op == "empty":
 			res = call(func() string { return "b" + tr.B(lst.IsEmpty()) })
+		}
+		if quiet && op != "obs" {
+			return res
 		}
 		obs := []string{res, eachAll(lst),
 			call(func() string { return "n" + strconv.Itoa(lst.Len()) }),
@@ -400,6 +412,7 @@ func execQueue(kind string, ops []string) string {
 	} else {
 		q = mlink.NewQueue[int]()
 	}
+	quiet := false
 	return steps(ops, func(op string) string {
 		f := strings.Split(op, ":")
 		res := "?"
@@ -423,6 +436,11 @@ func execQueue(kind string, ops []string) string {
 			}
 		case f[0] == "peeks" && len(f) == 2:
 			res = peeks(q, f[1])
+		case op == "quiet":
+			quiet = true
+			return "u"
+		case op == "obs":
+			res = "o"
 		case op == "pop":
 			res = call(func() string { v, ok := q.Pop(); return "p" + strconv.Itoa(v) + ":" + tr.B(ok) })
 		case op == "front":
@@ -442,6 +460,9 @@ func execQueue(kind string, ops []string) string {
 		case op == "empty":
 			res = call(func() string { return "b" + tr.B(q.IsEmpty()) })
 		}
+		if quiet && op != "obs" {
+			return res
+		}
 		return strings.Join([]string{res, eachAll(q),
 			call(func() string { return "n" + strconv.Itoa(q.Len()) }),
 			call(func() string { return "b" + tr.B(q.IsEmpty()) }),
@@ -453,6 +474,7 @@ func execQueue(kind string, ops []string) string {
 func execStack(ops []string) string {
 	s := stack.New[int]()
 	var kept, snap [][]int // slices returned by Slice earlier, and what they held
+	quiet := false
 	return steps(ops, func(op string) string {
 		f := strings.Split(op, ":")
 		res := "?"
@@ -487,6 +509,11 @@ func execStack(ops []string) string {
 			}
 		case f[0] == "peeks" && len(f) == 2:
 			res = peeks(s, f[1])
+		case op == "quiet":
+			quiet = true
+			return "u"
+		case op == "obs":
+			res = "o"
 		case op == "empty":
 			res = call(func() string { return "b" + tr.B(s.IsEmpty()) })
 		case op == "clear":
@@ -533,6 +560,9 @@ func execStack(ops []string) string {
 					alias = "/ALIAS"
 				}
 			}
+		}
+		if quiet && op != "obs" {
+			return res + alias
 		}
 		return strings.Join([]string{res,
 			call(func() string { return "l" + ints(s.Slice()) }),
@@ -687,6 +717,260 @@ func randList(r *tr.Rand, n int) []string {
 		}
 	}
 	return ops
+}
+
+// ---- scale streams: containers grown to sizes around the powers of two, drained by single
+// calls to 1/2, 1/4, 1/8, 1/16 of that and to one element, then regrown and drained past empty.
+//
+// "deep" histories (small and middle sizes) use the full protocol: every op, bulk or single, is
+// followed by the whole observation group; every fraction is crossed by four single,
+// individually observed calls; Peek probes at the top, in the middle, at the last element and
+// just past it follow every phase; the regrow point varies.
+// "light" histories (big sizes) are quiet: the observation group is printed by explicit "obs"
+// ops after every drain phase, the probes likewise, because the extracted model replays every
+// call in time linear in the size (a whole-contents observation is quadratic).
+
+func itoa(n int) string { return strconv.Itoa(n) }
+
+func probes(n int) string {
+	seen := map[int]bool{}
+	var out []string
+	for _, x := range []int{0, 1, n / 2, n - 2, n - 1, n, n + 1} {
+		if x >= 0 && !seen[x] {
+			seen[x] = true
+			out = append(out, itoa(x))
+		}
+	}
+	return strings.Join(out, "+")
+}
+
+// sizesAround: 2^k-1, 2^k, 2^k+1 (each size >= 1 once) for k = kmin..kmax.
+func sizesAround(kmin, kmax int, seen map[int]bool) []int {
+	var out []int
+	for k := kmin; k <= kmax; k++ {
+		for d := -1; d <= 1; d++ {
+			if n := 1<<k + d; n >= 1 && !seen[n] {
+				seen[n] = true
+				out = append(out, n)
+			}
+		}
+	}
+	return out
+}
+
+var fractions = []int{2, 4, 8, 16}
+
+// drainPlan: the sizes to stop at on the way down from n: n/2, n/4, n/8, n/16 (while they
+// decrease), then 1.
+func drainPlan(n int) []int {
+	var out []int
+	last := n
+	for _, fr := range fractions {
+		if t := n / fr; t >= 1 && t < last {
+			out = append(out, t)
+			last = t
+		}
+	}
+	if last > 1 {
+		out = append(out, 1)
+	}
+	return out
+}
+
+// lifoFifoScale (stack, queue): grow with growOp, drain along the plan with Pop, regrow with
+// regrowOp after stop #regrowAt (-1: only at the end) and drain again, regrow at the end, drain
+// past empty, use the empty container once more.  probeMax: above this size only the probes
+// near the top/front are made (Queue.Peek walks; the stack passes a huge value).  fullRegrow:
+// regrow to n (otherwise by n/8+3 elements).
+func lifoFifoScale(n int, deep bool, regrowAt int, growOp, regrowOp string, kn scaleKnobs, fullRegrow bool) []string {
+	var ops []string
+	if !deep {
+		ops = append(ops, "quiet")
+	}
+	ops = append(ops, growOp+":"+itoa(n)+":1000")
+	cur := n
+	base := 5000
+	look := func() {
+		if !deep {
+			if cur <= kn.obsMax {
+				ops = append(ops, "obs")
+			} else {
+				ops = append(ops, "len", "empty")
+			}
+		}
+		if cur <= kn.probeMax {
+			ops = append(ops, "peeks:"+probes(cur))
+		} else {
+			ops = append(ops, "peeks:0+1")
+		}
+		if deep {
+			ops = append(ops, "each:g"+itoa(1000+cur/2))
+		}
+	}
+	down := func(t int) {
+		if deep && cur-t >= 3 && t >= 3 { // cross t with single, individually observed pops
+			ops = append(ops, "popn:"+itoa(cur-t-2), "pop", "pop", "pop", "pop")
+			cur = t - 2
+		} else if cur > t {
+			ops = append(ops, "popn:"+itoa(cur-t))
+			cur = t
+		}
+		look()
+	}
+	up := func() {
+		k := n - cur
+		if !fullRegrow {
+			k = n/8 + 3
+		}
+		ops = append(ops, regrowOp+":"+itoa(k)+":"+itoa(base))
+		base += 4000
+		cur += k
+		look()
+	}
+	look()
+	plan := drainPlan(n)
+	for i, t := range plan {
+		down(t)
+		if i == regrowAt {
+			up()
+			for _, t2 := range plan[:i+1] {
+				down(t2)
+			}
+		}
+	}
+	up()
+	ops = append(ops, "popn:"+itoa(cur+2), "obs", regrowOp+":3:9000", "popn:2", "obs")
+	return ops
+}
+
+// listScale: a list of n elements built by ONE Add, with cursors at the end (#0), at the front
+// (#1), in the middle (#2) and at the last element (#3).  Drained first through the middle cursor
+// (everything from index n/2 on, one Remove at a time), then through the front cursor (which
+// strands the middle one), by Truncate through a fresh cursor, and from the front again;
+// regrown by single Pushes at the front or by one Add at the end; finally Remove is called past
+// the end and the list is used once more.
+func listScale(n int, deep bool, regrowAt int, kn scaleKnobs, fullRegrow bool) []string {
+	var ops []string
+	if !deep {
+		ops = append(ops, "quiet")
+	}
+	ops = append(ops, "end", "addn:0:"+itoa(n)+":1000", "at:0", "at:"+itoa(n/2), "last")
+	ncur := 4
+	cur := n
+	base := 5000
+	look := func() {
+		if !deep {
+			if cur <= kn.obsMax {
+				ops = append(ops, "obs")
+			} else {
+				ops = append(ops, "empty")
+			}
+		}
+		if cur <= kn.probeMax {
+			ops = append(ops, "peeks:"+probes(cur), "len")
+		} else {
+			ops = append(ops, "peeks:0+1")
+		}
+		if deep {
+			ops = append(ops, "each:g"+itoa(1000+cur/2))
+		}
+	}
+	downs := 0
+	down := func(t int) {
+		if cur <= t {
+			return
+		}
+		switch {
+		case downs == 0 && t == n/2: // through the middle cursor: indices n/2 … n-1
+			ops = append(ops, "rmn:2:"+itoa(cur-t))
+		case downs%2 == 0 && t >= 1: // cut the tail off
+			ops = append(ops, "at:"+itoa(t), "trunc:"+itoa(ncur))
+			ncur++
+		case deep && cur-t >= 3 && t >= 3: // cross t with single, individually observed removals
+			ops = append(ops, "rmn:1:"+itoa(cur-t-2), "rm:1", "rm:1", "rm:1", "rm:1")
+			t -= 2
+		default:
+			ops = append(ops, "rmn:1:"+itoa(cur-t))
+		}
+		downs++
+		cur = t
+		look()
+	}
+	ups := 0
+	up := func() {
+		k := n - cur
+		if !fullRegrow {
+			k = n/8 + 3
+		}
+		if ups%2 == 0 {
+			ops = append(ops, "pushn:1:"+itoa(k)+":"+itoa(base))
+		} else {
+			ops = append(ops, "end", "addn:"+itoa(ncur)+":"+itoa(k)+":"+itoa(base))
+			ncur++
+		}
+		ups++
+		base += 4000
+		cur += k
+		look()
+	}
+	look()
+	plan := drainPlan(n)
+	for i, t := range plan {
+		down(t)
+		if i == regrowAt {
+			up()
+			for _, t2 := range plan[:i+1] {
+				down(t2)
+			}
+		}
+	}
+	up()
+	ops = append(ops, "rmn:1:"+itoa(cur+2), "obs", "push:1:7", "end", "addn:"+itoa(ncur)+":2:9000", "rmn:1:2", "obs")
+	return ops
+}
+
+// scaleKnobs: how far one container's scale stream goes in a tier.  All sizes 2^k-1, 2^k, 2^k+1
+// up to 2^allK; one size per k (2^k+1, 2^k, 2^k-1 in turn) from there to 2^kmax; deep histories
+// up to 2^deepK+1 (with every regrow point up to 2^variantsK+1, one rotating regrow point
+// above); light histories print the whole-contents group only at sizes up to obsMax (Len,
+// IsEmpty and the probes above that) and make the far Peek probes only up to probeMax; they
+// regrow to the full size up to 2^regrowK+1 (by an eighth above).
+type scaleKnobs struct{ allK, kmax, deepK, variantsK, obsMax, probeMax, regrowK int }
+
+func (kn scaleKnobs) sizes(r *tr.Rand, nrand, randMax int) []int {
+	seen := map[int]bool{}
+	out := sizesAround(1, kn.allK, seen)
+	for k := kn.allK + 1; k <= kn.kmax; k++ {
+		out = append(out, 1<<k+1-(k-kn.allK-1)%3)
+	}
+	for i := 0; i < nrand; i++ {
+		out = append(out, r.Range(300, randMax))
+	}
+	return out
+}
+
+// scaleStream calls emit(history, tag) for every history of one container's stream.
+func scaleStream(kn scaleKnobs, sizes []int, mk func(n int, deep bool, regrowAt int, variant int, full bool) []string, emit func(ops []string, tag string)) {
+	for si, n := range sizes {
+		deep := n <= 1<<kn.deepK+1
+		full := n <= 1<<kn.regrowK+1
+		plan := len(drainPlan(n))
+		regrow := []int{-1}
+		if deep && n <= 1<<kn.variantsK+1 {
+			for i := 0; i < plan-1; i++ {
+				regrow = append(regrow, i)
+			}
+		} else if deep && plan > 1 {
+			regrow = append(regrow, si%(plan-1))
+		}
+		tag := "scale-light"
+		if deep {
+			tag = "scale-deep"
+		}
+		for ri, ra := range regrow {
+			emit(mk(n, deep, ra, si+ri, full), tag)
+		}
+	}
 }
 
 func listTags(in, out string) (bool, []string) {
@@ -951,6 +1235,32 @@ func main() {
 				}
 				emitS(ops, "random")
 			}
+			// ---- scale streams (every tier): sizes 2^k-1, 2^k, 2^k+1 and a few random large ones;
+			// grow, drain to 1/2 … 1/16 and to one element, regrow, drain past empty (see above).
+			// The knobs are set by what the replay on the extracted model costs: a stack op is
+			// linear in the size with a small constant, a queue/list op walks the model's heap
+			// of all entries ever allocated, ~50 times per call.
+			sk := scaleKnobs{allK: g.Scale(12, 13), kmax: g.Scale(12, 13), deepK: g.Scale(9, 10), variantsK: g.Scale(7, 10),
+				obsMax: g.Scale(1100, 9000), probeMax: 1 << 20, regrowK: g.Scale(11, 13)}
+			qk := scaleKnobs{allK: g.Scale(10, 12), kmax: g.Scale(10, 13), deepK: g.Scale(6, 8), variantsK: g.Scale(4, 6),
+				obsMax: g.Scale(1100, 2100), probeMax: g.Scale(300, 1100), regrowK: g.Scale(8, 10)}
+			lk := qk
+			lk.kmax = g.Scale(11, 13) // the queue is a list with a cached end cursor: the one history beyond 2^10 goes to the list
+			nrand := g.Scale(2, 8)
+			scaleStream(sk, sk.sizes(g.R, nrand, g.Scale(1500, 9000)), func(n int, deep bool, ra, v int, full bool) []string {
+				g1, g2 := "pushn", "addn"
+				if v%2 == 1 {
+					g1, g2 = g2, g1
+				}
+				return lifoFifoScale(n, deep, ra, g1, g2, sk, full)
+			}, func(ops []string, tag string) { emitS(ops, tag) })
+			v := 0
+			scaleStream(qk, qk.sizes(g.R, nrand, g.Scale(600, 3000)), func(n int, deep bool, ra, _ int, full bool) []string {
+				return lifoFifoScale(n, deep, ra, "addn", "addn", qk, full)
+			}, func(ops []string, tag string) { v++; emitQ([]string{"n", "z"}[v%2], ops, tag) })
+			scaleStream(lk, lk.sizes(g.R, nrand, g.Scale(600, 3000)), func(n int, deep bool, ra, _ int, full bool) []string {
+				return listScale(n, deep, ra, lk, full)
+			}, func(ops []string, tag string) { emitL(ops, tag) })
 			if stop() {
 				g.W.Count("generation-stopped-after-hangs", 1)
 			}
